@@ -78,6 +78,9 @@ func c10Run(c c10Case, short int) error {
 	if L < 0 {
 		L = 0
 	}
+	if err := c10Concurrent(c, rom, model, addr, start, L); err != nil {
+		return err
+	}
 	w := rom.BusWriter(addr)
 	o, dead := 0, false
 	var rd io.Reader
@@ -158,6 +161,75 @@ func c10Run(c c10Case, short int) error {
 		return fmt.Errorf("fresh reader at $%06X returned %d bytes, want the %d bytes of file [$%06X,$%06X); first difference at %d", addr, len(all), L, start, start+L, firstDiff(all, model[start:start+L]))
 	}
 	return cmp("at end")
+}
+
+// c10Concurrent uses two readers and two writers of the same ROM at the same time (alternating
+// calls): each must keep its own window and position.
+func c10Concurrent(c c10Case, rom *snes.ROM, model []byte, addr uint32, start, L int) error {
+	// second address: another offset in the ROM half of the last bank of the image
+	bank2 := uint32(c.Banks - 1)
+	off2 := uint32(0x8000 + (int(c.Off)*7+int(c.Bank)*0x1234)&0x7FF0)
+	addr2 := bank2<<16 | off2
+	start2 := int(bank2)*0x8000 + int(off2) - 0x8000
+	L2 := int(bank2)*0x8000 + 0x8000 - start2 - (int(c.Bank)*0x8000 + 0x8000 - start - L) // same shortening as the first window
+	if L2 < 0 {
+		L2 = 0
+	}
+	ra, rb := rom.BusReader(addr), rom.BusReader(addr2)
+	pa, pb := 0, 0
+	for round := 0; round < 3; round++ {
+		for k, rd := range []io.Reader{ra, rb} {
+			st, ln, pos, ad := start, L, &pa, addr
+			if k == 1 {
+				st, ln, pos, ad = start2, L2, &pb, addr2
+			}
+			buf := make([]byte, 3)
+			n, e := rd.Read(buf)
+			if e != nil && e != io.EOF {
+				return fmt.Errorf("two readers alive: reader at $%06X returned error %v", ad, e)
+			}
+			if *pos+n > ln || !bytes.Equal(buf[:n], model[st+*pos:st+*pos+n]) {
+				return fmt.Errorf("two readers alive: reader at $%06X returned % x at window position %d, its window holds % x (the other reader is at $%06X)", ad, buf[:n], *pos, model[st+*pos:st+min(*pos+n, ln)], map[int]uint32{0: addr2, 1: addr}[k])
+			}
+			if n < 3 && *pos+n != ln {
+				return fmt.Errorf("two readers alive: reader at $%06X delivered %d bytes at window position %d of %d", ad, n, *pos, ln)
+			}
+			*pos += n
+		}
+	}
+	// two writers alive at once, writing two bytes alternately (only where both windows are disjoint and long enough)
+	if L >= 4 && L2 >= 4 && (start+4 <= start2 || start2+4 <= start) {
+		wa, wb := rom.BusWriter(addr), rom.BusWriter(addr2)
+		saved := append([]byte(nil), model...)
+		for round := 0; round < 2; round++ {
+			for k, w := range []io.Writer{wa, wb} {
+				st, ad := start, addr
+				if k == 1 {
+					st, ad = start2, addr2
+				}
+				data := []byte{byte(0xA0 + 2*round + k), byte(0x50 + round)}
+				n, e := w.Write(data)
+				if n != 2 || e != nil {
+					return fmt.Errorf("two writers alive: Write(2 bytes) #%d at $%06X returned (%d, %v)", round, ad, n, e)
+				}
+				copy(model[st+2*round:], data)
+				if !bytes.Equal(rom.Contents, model) {
+					return fmt.Errorf("two writers alive: after write #%d at $%06X the image differs from the model at file offset $%X", round, ad, firstDiff(rom.Contents, model))
+				}
+			}
+		}
+		// undo, so the rest of the case starts from the pristine image
+		copy(model, saved)
+		copy(rom.Contents, saved)
+	}
+	return nil
+}
+
+func min(a, b int) int {
+	if a < b {
+		return a
+	}
+	return b
 }
 
 func firstDiff(a, b []byte) int {
